@@ -1,6 +1,6 @@
 #!/bin/bash
 # tools/regress_all.sh [lanes]  — re-runs every mutant (mutants/EXPECT.tsv) and every seeded change (seeded/*/patch.diff,
-# against the quick check of the property it was written for) in parallel lanes, each lane with its own scratch
+# against the quick check of the property it was written for, or the checks listed for it in seeded/CAUGHT_BY.tsv) in parallel lanes, each lane with its own scratch
 # worktree + harness copy under /tmp/rv_regress_<lane>. Results: mutants/RESULTS.txt and seeded/RESULTS.txt.
 cd /verif
 lanes="${1:-6}"
@@ -11,6 +11,8 @@ grep -v '^#' mutants/EXPECT.tsv | while IFS=$'\t' read -r name props; do
 done > $work/jobs
 for d in seeded/*/; do
   id=$(basename $d); prop=${id:0:3}
+  other=$(grep -P "^$id\t" seeded/CAUGHT_BY.tsv 2>/dev/null | cut -f2)
+  [ -n "$other" ] && prop="$other"
   echo "S|seeded/$id/patch.diff|$prop|$id"
 done >> $work/jobs
 total=$(wc -l < $work/jobs)
